@@ -435,6 +435,8 @@ static std::string probe(const upa::url& u) {
     }
     for (int t = 0; t < upa::url::PART_COUNT; ++t) {
         const auto pt = static_cast<upa::url::PartType>(t);
+        // is_empty(part) is exactly 'the view of the part is empty' (for every part, SCHEME included), on the object itself
+        if (u.is_empty(pt) != u.get_part_view(pt).empty()) return "probe=DIFF:is_empty-vs-view" + std::to_string(t);
         if (u.is_null(pt) != f.is_null(pt) || u.is_empty(pt) != f.is_empty(pt) || u.get_part_view(pt) != f.get_part_view(pt))
             return "probe=DIFF:part" + std::to_string(t);
     }
